@@ -35,27 +35,43 @@ def frame_section():
                 rule="every store / in-place mutator call in every method of the four encoder classes must hit a fresh local")
     check_modifies(s, "pvl.encoder", classes=ENC_CLASSES, allow=allow,
                    skip_methods=("__init__", "add_quantity_cls", "_import_quantities"), prop="C13")
-    # the one permitted mutation: _replace_value(module, i, k, self.objcls(v)), called only from PDSLabelEncoder.encode
+    # the one permitted mutation: _replace_value(<module>, i, k, self.objcls(v)) - in PDSLabelEncoder.encode, or in a private
+    # method of PDSLabelEncoder that only encode() calls, with encode's module
     prog = Program(["pvl.encoder"])
-    ci, fn = prog.function("pvl.encoder.PDSLabelEncoder.encode")
     allcalls = call_sites("pvl.encoder", {"_replace_value"})
-    s.obl("pvl.encoder:_replace_value-is-called-only-from-PDSLabelEncoder.encode",
-          DISCHARGED if allcalls and all(c[0] == "PDSLabelEncoder.encode" for c in allcalls) else FAILED, "frame",
+    cls_node = [n for n in module_ast("pvl.encoder").body if isinstance(n, ast.ClassDef) and n.name == "PDSLabelEncoder"][0]
+    methods = {n.name: n for n in cls_node.body if isinstance(n, ast.FunctionDef)}
+    s.obl("pvl.encoder:_replace_value-is-called-only-for-the-module-handed-to-PDSLabelEncoder.encode",
+          DISCHARGED if allcalls and all(_site_owner_ok(c[0], methods) for c in allcalls) else FAILED, "frame",
           detail=str([c[0] for c in allcalls]))
-    sites = [n for n in ast.walk(fn) if isinstance(n, ast.Call) and isinstance(n.func, ast.Attribute)
-             and n.func.attr == "_replace_value"]
-    ok = bool(sites) and all([ast.unparse(a) for a in n.args] == ["module", "i", "k", "self.objcls(v)"] and not n.keywords
-                             for n in sites)
+    shape_ok = pre_ok = guarded = bool(allcalls)
+    direct_stores = []
+    for owner in sorted({c[0] for c in allcalls} | {"PDSLabelEncoder.encode"}):
+        fn = methods.get(owner.split(".")[-1]) if owner.startswith("PDSLabelEncoder.") else None
+        if fn is None:
+            shape_ok = False
+            continue
+        params = [a.arg for a in fn.args.args]
+        sites = [n for n in ast.walk(fn) if isinstance(n, ast.Call) and isinstance(n.func, ast.Attribute)
+                 and n.func.attr == "_replace_value"]
+        for n in sites:
+            a = n.args
+            sh = (len(a) == 4 and not n.keywords and all(isinstance(x, ast.Name) for x in a[:3]) and a[0].id in params[1:2]
+                  and isinstance(a[3], ast.Call) and ast.unparse(a[3].func) == "self.objcls" and len(a[3].args) == 1
+                  and isinstance(a[3].args[0], ast.Name))
+            shape_ok = shape_ok and sh
+            if sh:
+                pre_ok = pre_ok and _index_and_key_from_enumerate(fn, n)
+                guarded = guarded and _guarded_by_group_test(fn, n)
+        direct_stores += [f"{owner}: {ast.unparse(n)}" for n in ast.walk(fn) if isinstance(n, (ast.Assign, ast.AugAssign)) and any(
+            isinstance(t, (ast.Subscript, ast.Attribute)) and not ast.unparse(t).startswith("self.")
+            for t in (n.targets if isinstance(n, ast.Assign) else [n.target]))]
     s.obl("pvl.encoder.PDSLabelEncoder.encode:permitted-mutation-is-_replace_value(module, i, k, self.objcls(v))",
-          DISCHARGED if ok else FAILED, "frame", function="pvl.encoder.PDSLabelEncoder.encode")
-    stores = [n for n in ast.walk(fn) if isinstance(n, (ast.Assign, ast.AugAssign)) and any(
-        isinstance(t, (ast.Subscript, ast.Attribute)) for t in (n.targets if isinstance(n, ast.Assign) else [n.target]))]
-    s.obl("pvl.encoder.PDSLabelEncoder.encode:no-direct-store-into-the-module", DISCHARGED if not stores else FAILED, "frame",
-          detail="; ".join(ast.unparse(n) for n in stores[:3]))
-    pre_ok = all(_index_and_key_from_enumerate(fn, n) for n in sites)
+          DISCHARGED if shape_ok else FAILED, "frame", function="pvl.encoder.PDSLabelEncoder.encode")
+    s.obl("pvl.encoder.PDSLabelEncoder.encode:no-direct-store-into-the-module", DISCHARGED if not direct_stores else FAILED, "frame",
+          detail="; ".join(direct_stores[:3]))
     s.obl("pvl.encoder.PDSLabelEncoder.encode:_replace_value-precondition: (i, (k, v)) come from enumerate(module.items())",
           DISCHARGED if pre_ok else FAILED, "frame", function="pvl.encoder.PDSLabelEncoder.encode")
-    guarded = all(_guarded_by_group_test(fn, n) for n in sites)
     s.obl("pvl.encoder.PDSLabelEncoder.encode:conversion-only-for-a-group-value-followed-by-break", DISCHARGED if guarded else FAILED,
           "frame", function="pvl.encoder.PDSLabelEncoder.encode")
     # the positional branch of _replace_value is selected by an isinstance test: it must cover every bundled multi-dict class
@@ -101,25 +117,72 @@ def _stmt_of(fn, call):
     return None
 
 
+def _site_owner_ok(owner, methods):
+    """the call sits in PDSLabelEncoder.encode, or in a private PDSLabelEncoder method whose only callers (in the whole module)
+    are encode / such methods, each passing on its own module parameter"""
+    if owner == "PDSLabelEncoder.encode":
+        return True
+    if not owner.startswith("PDSLabelEncoder._"):
+        return False
+    name = owner.split(".", 1)[1]
+    callers = call_sites("pvl.encoder", {name})
+    if not callers:
+        return False
+    for c in callers:
+        fn = methods.get(c[0].split(".")[-1]) if c[0].startswith("PDSLabelEncoder.") else None
+        if fn is None or c[0] == owner:
+            return False
+        params = [a.arg for a in fn.args.args]
+        call = c[4]
+        if not (ast.unparse(call.func) == f"self.{name}" and len(call.args) >= 1 and isinstance(call.args[0], ast.Name)
+                and call.args[0].id in params[1:2]):
+            return False
+        if not _site_owner_ok(c[0], methods):
+            return False
+    return True
+
+
+def _enclosing(fn, node, kinds):
+    """innermost statement of one of *kinds* that contains *node* (by position in the tree)"""
+    best = None
+    for n in ast.walk(fn):
+        if isinstance(n, kinds) and n is not node and any(m is node for m in ast.walk(n)):
+            if best is None or any(m is n for m in ast.walk(best)):
+                best = n
+    return best
+
+
 def _guarded_by_group_test(fn, call):
+    """under an `if` (inside the loop) one of whose conjuncts is isinstance(<v>, self.grpcls) for the converted value, and the
+    next statement leaves the loop (break / return): at most one conversion per scan"""
     st = _stmt_of(fn, call)
+    v = call.args[3].args[0].id
     for n in ast.walk(fn):
         if isinstance(n, ast.If) and st in n.body:
-            t = ast.unparse(n.test)
+            conj = n.test.values if isinstance(n.test, ast.BoolOp) and isinstance(n.test.op, ast.And) else [n.test]
             idx = n.body.index(st)
-            brk = idx + 1 < len(n.body) and isinstance(n.body[idx + 1], ast.Break)
-            return "isinstance(v, self.grpcls)" in t and brk
+            leaves = idx + 1 < len(n.body) and isinstance(n.body[idx + 1], (ast.Break, ast.Return))
+            return any(ast.unparse(c) == f"isinstance({v}, self.grpcls)" for c in conj) and leaves
     return False
 
 
 def _index_and_key_from_enumerate(fn, call):
-    """the call sits (under the if) directly in `for i, (k, v) in enumerate(module.items()):` and nothing between the loop
-    head and the call changes the module (the call is followed by break)"""
-    st = _stmt_of(fn, call)
-    for n in ast.walk(fn):
-        if isinstance(n, ast.For) and len(n.body) == 1 and isinstance(n.body[0], ast.If) and st in n.body[0].body:
-            return ast.unparse(n.target) == "(i, (k, v))" and ast.unparse(n.iter) == "enumerate(module.items())"
-    return False
+    """the innermost loop around the call is `for <i>, (<k>, <v>) in enumerate(<module>.items()):` for the very names the
+    call passes, and nothing in the loop body before the call stores into them or the module (the call is followed by
+    break / return: _guarded_by_group_test)"""
+    m, i, k = (a.id for a in call.args[:3])
+    v = call.args[3].args[0].id
+    loop = _enclosing(fn, call, (ast.For,))
+    if loop is None:
+        return False
+    if not (ast.unparse(loop.target) == f"({i}, ({k}, {v}))" and ast.unparse(loop.iter) == f"enumerate({m}.items())"):
+        return False
+    for st in loop.body:                      # (the else part of the loop runs after the scan, not between head and call)
+        for n in ast.walk(st):
+            if isinstance(n, ast.Name) and isinstance(n.ctx, ast.Store) and n.id in (m, i, k, v):
+                return False
+    return True
+
 
 
 def replace_value_section(ctx):
